@@ -218,3 +218,42 @@ def no_early_exit(rep: Report, sc, file: str, fn: str, what: str, loops=None, al
     rep.ob("R-NOEXIT", file, fn, f"{what}: every element is visited (no early exit from the loop)", not bad,
            f"`{norm_stmt(bad[0].stmt)}` under {list(bad[0].guards)[-1:]} leaves or skips part of the loop" if bad else "",
            bad[0].stmt if bad else f"{fn}: exits of {what}")
+
+
+def input_writes(k: Kernel) -> List[ast.AST]:
+    """Statements of kernel `k` that store into an input array (or a slice view / alias of one).
+
+    A store is accepted when the name was re-bound to a fresh array (`y = np.where(...)`, `x = x.astype(...)`) on an
+    earlier line: from there on the name no longer denotes the caller's buffer."""
+    ins = set(k.inputs) & array_params_of(k)
+    alias: Dict[str, str] = {}
+    for st in ast.walk(k.node):
+        if isinstance(st, ast.Assign) and isinstance(st.targets[0], ast.Name):
+            v = st.value
+            if isinstance(v, ast.Name) and v.id in ins:
+                alias[st.targets[0].id] = v.id
+            if isinstance(v, ast.Subscript) and isinstance(v.value, ast.Name) and v.value.id in ins:
+                sl = v.slice
+                parts = sl.elts if isinstance(sl, ast.Tuple) else [sl]
+                if any(isinstance(p_, ast.Slice) for p_ in parts):
+                    alias[st.targets[0].id] = v.value.id
+    rebinds: Dict[str, int] = {}
+    for st in ast.walk(k.node):
+        if isinstance(st, ast.Assign) and isinstance(st.targets[0], ast.Name) and st.targets[0].id in ins and isinstance(st.value, ast.Call):
+            rebinds[st.targets[0].id] = min(rebinds.get(st.targets[0].id, 10 ** 9), st.lineno)
+    bad: List[ast.AST] = []
+    for st in ast.walk(k.node):
+        tg = []
+        if isinstance(st, ast.Assign):
+            tg = st.targets
+        elif isinstance(st, ast.AugAssign):
+            tg = [st.target]
+        for t in tg:
+            for tt in (t.elts if isinstance(t, ast.Tuple) else [t]):
+                if isinstance(tt, ast.Subscript) and isinstance(tt.value, ast.Name) and (tt.value.id in ins or tt.value.id in alias) \
+                        and not rebinds.get(tt.value.id, 10 ** 9) < st.lineno:
+                    bad.append(st)
+        if isinstance(st, ast.Call) and ast.unparse(st.func).split(".")[-1] == "round" and len(st.args) == 3 and isinstance(st.args[2], ast.Name) \
+                and (st.args[2].id in ins or st.args[2].id in alias) and not rebinds.get(st.args[2].id, 10 ** 9) < st.lineno:
+            bad.append(st)
+    return bad
